@@ -241,17 +241,26 @@ func PanicKind(r any) string {
 }
 
 func isHarnessFrame(fn, file string) bool {
+	if fn == "main.main" || strings.HasSuffix(file, "_testmain.go") {
+		return true
+	}
 	return strings.Contains(file, "zz_verif") || strings.Contains(file, "/zzverif/") || strings.Contains(fn, "/zzverif/") ||
 		strings.Contains(file, "/verif/harness/") || strings.Contains(fn, "_test.") || strings.Contains(fn, ".TestVerif") ||
 		strings.Contains(fn, ".c12")
 }
 
+// RootPkg: in a test binary of package main the functions of the root package carry the module path.
+const RootPkg = "github.com/rpcpool/yellowstone-faithful."
+
 func isRepoFunc(fn string) bool {
-	return strings.HasPrefix(fn, Module) || strings.HasPrefix(fn, "main.")
+	return strings.HasPrefix(fn, Module) || strings.HasPrefix(fn, "main.") || strings.HasPrefix(fn, RootPkg)
 }
 
 // ShortFunc strips the module path from a function name.
 func ShortFunc(fn string) string {
+	if strings.HasPrefix(fn, RootPkg) {
+		fn = "main." + fn[len(RootPkg):]
+	}
 	fn = strings.TrimPrefix(fn, Module)
 	// closures: keep "X.func1" but drop generic instantiation noise
 	fn = strings.ReplaceAll(fn, "[...]", "")
@@ -410,6 +419,8 @@ type ChildSpec struct {
 	// Only: when non-nil, run exactly this case (replay) instead of the generated list.
 	Only      *Case `json:"only,omitempty"`
 	NoRlimit  bool  `json:"no_rlimit,omitempty"`
+	// RlimitBytes overrides AddressSpaceLimit (used by the single-case retry of an unattributable death).
+	RlimitBytes uint64 `json:"rlimit_bytes,omitempty"`
 	HangSecs  int   `json:"hang_secs"`
 	ReadLimit int64 `json:"read_limit"`
 	// SkipFields: "entry|field" pairs whose remaining cases are skipped (the parent adds a pair after
@@ -459,7 +470,11 @@ func ChildLoop(spec ChildSpec) error {
 	}
 	runtime.MemProfileRate = 16 << 20
 	if !spec.NoRlimit && !RaceEnabled {
-		lim := syscall.Rlimit{Cur: AddressSpaceLimit, Max: AddressSpaceLimit}
+		as := uint64(AddressSpaceLimit)
+		if spec.RlimitBytes > 0 {
+			as = spec.RlimitBytes
+		}
+		lim := syscall.Rlimit{Cur: as, Max: as}
 		_ = syscall.Setrlimit(syscall.RLIMIT_AS, &lim)
 	}
 	jf, err := os.OpenFile(spec.Journal, os.O_CREATE|os.O_WRONLY|os.O_APPEND, 0o644)
@@ -548,10 +563,16 @@ func ChildLoop(spec ChildSpec) error {
 }
 
 func dumpAndExit(code int) {
-	buf := make([]byte, 1<<20)
+	buf := make([]byte, 4<<20)
 	n := runtime.Stack(buf, true)
-	os.Stderr.WriteString("\nC12-WATCHDOG goroutine dump:\n")
-	os.Stderr.Write(buf[:n])
+	blocks := strings.Split(string(buf[:n]), "\n\n")
+	// the goroutine that executes the case first (crash-log consumers keep only the head of the log)
+	sort.SliceStable(blocks, func(i, j int) bool {
+		return strings.Contains(blocks[i], "c12kit.(*Stepper).Do") && !strings.Contains(blocks[j], "c12kit.(*Stepper).Do")
+	})
+	os.Stderr.WriteString("\nfatal error: C12-WATCHDOG goroutine dump:\n\n")
+	os.Stderr.WriteString(strings.Join(blocks, "\n\n"))
+	os.Stderr.WriteString("\n")
 	os.Exit(code)
 }
 
@@ -647,14 +668,17 @@ func CrashTail(txt string) string {
 
 // FuncFromDump applies the key rule to the first goroutine of a crash log / goroutine dump that
 // contains a repository frame (wantMarker: only goroutines whose stack contains this text).
-func FuncFromDump(dump string, wantMarker string) (entry, fn string) {
+// outermost=true returns the outermost repository function twice (used for loops: the loop belongs
+// to the function the driver called, wherever the goroutine happened to be).
+func FuncFromDump(dump string, wantMarker string, outermost bool) (entry, fn string) {
 	blocks := strings.Split(dump, "\n\n")
 	for _, b := range blocks {
 		if wantMarker != "" && !strings.Contains(b, wantMarker) {
 			continue
 		}
 		var fns []string
-		for _, ln := range strings.Split(b, "\n") {
+		lines := strings.Split(b, "\n")
+		for i, ln := range lines {
 			if strings.HasPrefix(ln, "\t") || strings.HasPrefix(ln, " ") {
 				continue // file:line rows
 			}
@@ -667,35 +691,63 @@ func FuncFromDump(dump string, wantMarker string) (entry, fn string) {
 				continue
 			}
 			f := ln[:k]
-			if !strings.Contains(f, ".") || isHarnessFrame(f, "") {
+			file := ""
+			if i+1 < len(lines) {
+				file = lines[i+1]
+			}
+			if !strings.Contains(f, ".") || isHarnessFrame(f, file) {
 				continue
 			}
 			fns = append(fns, f)
 		}
-		has := false
+		var repo []string
 		for _, f := range fns {
 			if isRepoFunc(f) {
-				has = true
+				repo = append(repo, f)
 			}
 		}
-		if has {
-			return pickFrames(fns)
+		if len(repo) == 0 {
+			continue
 		}
+		if outermost {
+			o := repo[len(repo)-1]
+			if k := strings.Index(o, ".func"); k >= 0 {
+				o = o[:k]
+			}
+			return ShortFunc(o), ShortFunc(o)
+		}
+		return pickFrames(fns)
 	}
 	return "?", "?"
 }
 
 // FatalClass normalises the first fatal line of a crash log.
+//   - an allocation the address-space limit refused is the same failure class as an allocation the
+//     meter flags ("alloc-out-of-proportion": allocation sized by untrusted input);
+//   - a panic that killed the process (raised in a goroutine the caller cannot recover) keeps the
+//     class of the panic value, so that it shares the key of the same panic observed under recover().
 func FatalClass(out string) string {
 	switch {
 	case strings.Contains(out, "out of memory"), strings.Contains(out, "cannot allocate memory"):
-		return "fatal:out-of-memory"
+		return "alloc-out-of-proportion"
 	case strings.Contains(out, "stack overflow"), strings.Contains(out, "goroutine stack exceeds"):
 		return "fatal:stack-overflow"
 	case strings.Contains(out, "concurrent map"):
 		return "fatal:concurrent-map-access"
-	case strings.Contains(out, "\npanic: "):
-		return "fatal:panic-outside-recover"
+	case strings.Contains(out, "\npanic: "), strings.HasPrefix(out, "panic: "):
+		k := strings.Index(out, "panic: ")
+		msg := out[k+len("panic: "):]
+		if nl := strings.Index(msg, "\n"); nl >= 0 {
+			msg = msg[:nl]
+		}
+		msg = strings.TrimSuffix(strings.TrimSpace(msg), " [recovered]")
+		if strings.HasPrefix(msg, "runtime error: ") || strings.HasPrefix(msg, "interface conversion") {
+			if !strings.HasPrefix(msg, "runtime error: ") {
+				msg = "runtime error: " + msg
+			}
+			return "panic:" + PanicKind(msg)
+		}
+		return "panic:explicit-panic"
 	case strings.Contains(out, "unexpected fault address"), strings.Contains(out, "SIGSEGV"), strings.Contains(out, "SIGBUS"):
 		return "fatal:fault"
 	}
@@ -765,7 +817,7 @@ func parseJournal(path string) journalState {
 // Budgets of one group run (a broken tree must not turn a bounded run into an unbounded one).
 const (
 	MaxRecordedPerKey = 3
-	MaxDistinctKeys   = 40
+	MaxDistinctKeys   = 80
 	MaxDeaths         = 400
 	MaxInconclusive   = 10
 )
@@ -814,6 +866,54 @@ func (r *Runner) violate(c *Case, step, entry, class, fn, detail string) {
 	in := c.In
 	det := fmt.Sprintf("step %s (driver %s), input %q (%d bytes, sha256/8 %s): %s", step, c.Entry, c.Label, len(in), sha(in), detail)
 	r.Rec.Violation(key, det, Replay{Group: r.Group, Case: *c, Step: step, Sha: sha(in)})
+}
+
+// retryAlone re-executes one case in a fresh child. It returns true when the retry produced a verdict
+// (violations recorded from its journal, or a clean pass recorded as inconclusive).
+func (r *Runner) retryAlone(c *Case, step, firstOut string) bool {
+	jp := filepath.Join(ev.Scratch(), "c12journal", fmt.Sprintf("%s-%d-retry-%d.journal", r.Group, os.Getpid(), r.deaths))
+	os.MkdirAll(filepath.Dir(jp), 0o755)
+	os.Remove(jp)
+	spec := ChildSpec{Group: r.Group, FixDir: r.FixDir, Start: 0, Journal: jp, Only: c, NoRlimit: r.NoRlimit, HangSecs: r.HangSecs, ReadLimit: r.ReadLimit,
+		RlimitBytes: 4 * AddressSpaceLimit} // more head-room: the first death was memory exhaustion outside a Go stack
+	out, exitErr, timedOut := r.Spawn(spec, r.ChildTimeout)
+	st := parseJournal(jp)
+	os.Remove(jp)
+	r.deaths++
+	if rl, ok := st.results[0]; ok && st.done {
+		n := 0
+		for _, s := range rl.Steps {
+			switch s.Kind {
+			case "panic":
+				r.violate(c, s.Name, s.Entry, s.Class, s.Func, fmt.Sprintf("PANIC %q; stack:\n%s", s.Msg, s.Stack))
+				n++
+			case "alloc":
+				r.violate(c, s.Name, s.Entry, s.Class, s.Func, fmt.Sprintf("%s; allocating stack:\n%s", s.Msg, s.Stack))
+				n++
+			}
+		}
+		if n == 0 {
+			r.inconc++
+			r.Rec.Inconclusive(fmt.Sprintf("%s: the child died once in step %s on input %q (sha256/8 %s) without a Go stack and the case passed when executed alone: %s", r.Group, step, c.Label, sha(c.In), trunc(firstOut, 300)))
+		}
+		return true
+	}
+	if timedOut {
+		return false
+	}
+	class := FatalClass(out)
+	en, fn := FuncFromDump(out, "", false)
+	if fn == "?" || class == "fatal:process-death" {
+		r.inconc++
+		r.Rec.Inconclusive(fmt.Sprintf("%s: the child died twice in step %s on input %q (hex %s) without an attributable Go stack (exit %v): %s", r.Group, step, c.Label, hexShort(c.In), exitErr, trunc(out, 600)))
+		return true
+	}
+	if st.lastStep != "" {
+		step = st.lastStep
+	}
+	r.noteDeath(c, en+"/"+class+"/"+fn)
+	r.violate(c, step, en, class, fn, fmt.Sprintf("the process DIED (exit: %v) — not recoverable by the caller; log:\n%s", exitErr, trunc(out, 3000)))
+	return true
 }
 
 // noteDeath counts a process death per (key, mutated field); after three, the remaining mutants of
@@ -946,7 +1046,7 @@ func (r *Runner) Run() {
 		}
 		switch {
 		case st.loop == bad:
-			en, fn := FuncFromDump(out, "c12kit.(*Stepper).Do")
+			en, fn := FuncFromDump(out, "c12kit.(*Stepper).Do", true)
 			r.violate(c, step, en, "unbounded-reads", fn, fmt.Sprintf("the step issued %d read system calls on an input of %d bytes and had not returned (budget %d): a loop that does not terminate on this input; goroutine dump:\n%s", st.loopN, len(c.In), r.ReadLimit, trunc(out, 2500)))
 			r.deaths++
 		case st.hang == bad || timedOut:
@@ -955,7 +1055,15 @@ func (r *Runner) Run() {
 				r.Group, step, c.Label, len(c.In), sha(c.In), hexShort(c.In), trunc(out, 1200)))
 		default:
 			class := FatalClass(out)
-			en, fn := FuncFromDump(out, "")
+			en, fn := FuncFromDump(out, "", false)
+			if fn == "?" || class == "fatal:process-death" {
+				// a death without a Go stack (e.g. a C thread aborting under the address-space limit):
+				// execute the case once more alone, in a fresh child, to obtain an attributable observation
+				if r.retryAlone(c, step, out) {
+					start = bad + 1
+					continue
+				}
+			}
 			r.noteDeath(c, en+"/"+class+"/"+fn)
 			r.violate(c, step, en, class, fn, fmt.Sprintf("the process DIED (exit: %v) — not recoverable by the caller; log:\n%s", exitErr, trunc(out, 3000)))
 			r.deaths++
